@@ -278,6 +278,13 @@ class FakeTransport(asyncio.Transport):
     def is_closing(self) -> bool:
         return self.closed
 
+    # a transport whose write buffer drains at once: it never calls pause_writing
+    def set_write_buffer_limits(self, high=None, low=None) -> None:
+        pass
+
+    def get_write_buffer_size(self) -> int:
+        return 0
+
     def get_extra_info(self, name, default=None):
         if name == "peername":
             return self.peer
